@@ -161,6 +161,16 @@ def run(argv):
                  {"op": "render", "id": "A", "backend": BACKENDS[0], "tag": [a, "dense"]},
                  {"op": "render", "id": "A", "backend": BACKENDS[1], "tag": [a, "sparse"]}]
         jobs.append((f"interleave-{a}-after-{b}", {"steps": steps}, rng.choice(seeds)))
+    # (c1) the host-code patch is rendered from the same network object: neither the patch nor the sources may depend on which of the
+    #      two was rendered first, or on how often
+    for nm in ("default", "upper", "krome"):
+        steps = [{"op": "build", "id": "A", "desc": descs[nm]},
+                 {"op": "patch", "id": "A", "tag": [nm, "enzo-patch"]},
+                 {"op": "render", "id": "A", "backend": BACKENDS[0], "tag": [nm, "dense"]},
+                 {"op": "patch", "id": "A", "tag": [nm, "enzo-patch"]},
+                 {"op": "render", "id": "A", "backend": BACKENDS[0], "tag": [nm, "dense"]}]
+        jobs.append((f"patch-then-render-{nm}", {"steps": steps}, rng.choice(seeds)))
+        jobs.append((f"render-then-patch-{nm}", {"steps": [steps[0], steps[2], steps[1]]}, 0))
     # (c2) editing A after B was built: the late line must be parsed with A's own lists
     extra = {"upper": (native(77, ["MG+", "E"], ["MG"]), "naunet"), "default": (native(77, ["Mg+", "e-"], ["Mg"]), "naunet"),
              "krome": ("5,HE+,E,,HE,,,,NONE,NONE,1.0d-11", "krome"), "krome2": ("5,HE+,E,,HE,,,,NONE,NONE,1.0d-11", "krome"),
